@@ -181,7 +181,9 @@ ExecOp(s, op) ==
               LET e == UnwindToLoop(s.est)
               IN IF e # <<>> /\ e[Len(e)].k = "none" THEN Fail(s, {"invalidexit"})
                  ELSE [s EXCEPT !.est = e]
-         [] op = "stop" ->
+         [] op \in {"stop", ".defaulterrorhandler"} ->
+              \* the default handler of errordict executed directly (no pending error)
+              \* behaves like the standard handlers: it stops the program
               \* no `stopped` context exists: stop ends the current Execute call without error
               [s EXCEPT !.est = <<>>, !.feed = DropCall(@)]
          [] op = "bind" ->
